@@ -209,7 +209,9 @@ func childMain() {
 		childDie(dir, 5, "setup-error", err)
 	}
 	app.valKey = pubKey
-	app.retain = int64(envInt("TMH_C05_RETAIN", 0))
+	if os.Getenv("TMH_C05_RETAIN") != "" {
+		app.hasRet, app.retainK = true, int64(envInt("TMH_C05_RETAIN", 0))
+	}
 	app.exitAtBegin = int64(envInt("TMH_C05_IH", 1)) + int64(envInt(envBlocks, 3))
 
 	// what a restarting node finds
